@@ -42,7 +42,13 @@ func filterArgs(s Scenario) []am.Arg {
 		for _, i := range s.FilterIn {
 			fs = append(fs, am.FilterType(typeOf(i)))
 		}
-		args = append(args, am.FilterInput(am.FilterAnd(am.FilterOr(fs...))))
+		// FilterAnd(allowed, everything) == allowed; an And that behaved like Or would let
+		// every type through
+		var all []am.FilterFunc
+		for _, i := range []int{0, 1, 2, 3, 4, TP0, TP1, TE, TI2, TI} {
+			all = append(all, am.FilterType(typeOf(i)))
+		}
+		args = append(args, am.FilterInput(am.FilterAnd(am.FilterOr(fs...), am.FilterOr(all...))))
 	}
 	switch s.FilterOut {
 	case 1:
